@@ -187,7 +187,7 @@ func (e *Env) Addr(symbol string) (reflect.Value, error) {
 	}
 	if externalLookup != nil {
 		v, err := externalLookup.Get(symbol)
-		if err == nil {
+		if err == nil && v.IsValid() && v.CanInterface() {
 			if v.CanAddr() {
 				return v.Addr(), nil
 			}
